@@ -185,6 +185,7 @@ type stackRig struct {
 	obs     *observation
 	handler http.Handler
 	ctx     *middleware.Context
+	last    *http.Request // the request object of the last serve
 }
 
 func (r *stackRig) registerCommon(api *untyped.API) {
@@ -363,9 +364,15 @@ func (r *stackRig) request(q Req) *http.Request {
 }
 
 func (r *stackRig) serve(q Req) (*observation, *kit.Violation) {
+	return r.serveObject(q, r.request(q))
+}
+
+// serveObject serves the given request object (its body is what request(q) gave it, or a fresh copy of it).
+func (r *stackRig) serveObject(q Req, req *http.Request) (*observation, *kit.Violation) {
 	*r.obs = observation{}
+	r.last = req
 	rec := httptest.NewRecorder()
-	if v := kit.Guard("APIHandler.ServeHTTP", func() { r.handler.ServeHTTP(rec, r.request(q)) }); v != nil {
+	if v := kit.Guard("APIHandler.ServeHTTP", func() { r.handler.ServeHTTP(rec, req) }); v != nil {
 		return nil, v
 	}
 	o := *r.obs
@@ -518,6 +525,19 @@ func checkServed(c StackCase, rig *stackRig, typed bool) *kit.Violation {
 		}
 		if !matched {
 			return kit.Failf("%s: request %d %+v: observed %s; admissible over all evaluation orders: %s", c.describe(), i, q, ob, strings.Join(reasons, "; "))
+		}
+		// the caller hands the very same request object in again (a retry loop, a test that reuses its request): it is
+		// authenticated again, not waved through on what the first pass left behind (r7/r8)
+		if i == 0 && !q.damaged() {
+			same := rig.last
+			same.Body = rig.request(q).Body
+			ob2, v := rig.serveObject(q, same)
+			if v != nil {
+				return v
+			}
+			if ob2.status != ob.status || ob2.ran != ob.ran || len(ob2.log.auth) != len(ob.log.auth) || len(ob2.log.authz) != len(ob.log.authz) {
+				return kit.Failf("%s: request %d %+v: SAME-OBJECT-AGAIN: first pass observed %s; the same *http.Request handed in again observed %s", c.describe(), i, q, ob, ob2)
+			}
 		}
 	}
 	return nil
